@@ -52,6 +52,7 @@ type accessRec struct {
 
 type varInfo struct {
 	fresh bool // object created in this function (constructor / clone): accesses are pre-publication
+	copy  bool // g := *f: a shallow copy — scalar fields are private, reference-typed fields are shared with f
 }
 
 type heldSet map[string]string // lock field -> "Sh" | "Ex"; nil = unreachable (top)
@@ -138,14 +139,19 @@ type loopCtx struct {
 }
 
 type fnCtx struct {
-	fn        string
-	vars      map[string]*varInfo
-	ptrs      map[string][2]string // local pointer p := &v.f[...]  ->  (v, f)
-	held      heldSet
-	published bool // constructor started a goroutine: the object is visible to other threads from here on
-	noPrepub  int  // > 0 inside closures that may run after publication
-	stack     []string
-	loops     []*loopCtx
+	fn             string
+	vars           map[string]*varInfo
+	ptrs           map[string][2]string // local pointer p := &v.f[...]  ->  (v, f)
+	valAlias       map[string]bool      // the entry of ptrs is a value alias m := v.f[...] of a reference-typed field (map, slice, pointer)
+	deferredUnlock map[string]bool      // locks released by a deferred Unlock: not held any more once the function has returned
+	retHeld        heldSet              // meet of the held sets at the return statements
+	hasRet         bool
+	closures       int // > 0 inside a function literal (its returns are not the function's)
+	held           heldSet
+	published      bool // constructor started a goroutine: the object is visible to other threads from here on
+	noPrepub       int  // > 0 inside closures that may run after publication
+	stack          []string
+	loops          []*loopCtx
 }
 
 func typeString(e ast.Expr) string {
@@ -543,6 +549,151 @@ func (ls *lockScanner) lvalueRoot(c *fnCtx, e ast.Expr) (string, string, bool) {
 	}
 }
 
+var basicValueTypes = map[string]bool{
+	"bool": true, "string": true, "int": true, "int8": true, "int16": true, "int32": true, "int64": true,
+	"uint": true, "uint8": true, "uint16": true, "uint32": true, "uint64": true, "uintptr": true, "byte": true, "rune": true,
+	"float32": true, "float64": true, "complex64": true, "complex128": true, "time.Duration": true, "time.Time": true,
+}
+
+// mayRef: a value of this type can share memory with the field it was copied from (map, slice, pointer, chan,
+// func, interface, or an array / struct / unknown named type that may contain one).
+func (ls *lockScanner) mayRef(t ast.Expr, depth int) bool {
+	if depth > 6 {
+		return true
+	}
+	switch x := t.(type) {
+	case *ast.Ident:
+		if basicValueTypes[x.Name] {
+			return false
+		}
+		if d, ok := ls.pkgTypes[x.Name]; ok {
+			return ls.mayRef(d, depth+1)
+		}
+		return true
+	case *ast.SelectorExpr:
+		return !basicValueTypes[typeString(x)]
+	case *ast.ArrayType:
+		if x.Len == nil {
+			return true
+		}
+		return ls.mayRef(x.Elt, depth+1)
+	case *ast.StructType:
+		for _, f := range x.Fields.List {
+			if ls.mayRef(f.Type, depth+1) {
+				return true
+			}
+		}
+		return false
+	case *ast.ParenExpr:
+		return ls.mayRef(x.X, depth+1)
+	}
+	return true
+}
+
+// isPath: selector / index / slice / deref chain (no calls, no operators)
+func isPath(e ast.Expr) bool {
+	for {
+		switch t := e.(type) {
+		case *ast.Ident:
+			return true
+		case *ast.ParenExpr:
+			e = t.X
+		case *ast.IndexExpr:
+			e = t.X
+		case *ast.SliceExpr:
+			e = t.X
+		case *ast.StarExpr:
+			e = t.X
+		case *ast.SelectorExpr:
+			e = t.X
+		default:
+			return false
+		}
+	}
+}
+
+// valueAliasOf: e is a path rooted at a reference-typed field of a tracked variable (m := f.ipMaps[i]), or at a
+// local that already is such an alias (mm := m[k])
+func (ls *lockScanner) valueAliasOf(c *fnCtx, e ast.Expr) (string, string, bool) {
+	if e == nil || !isPath(e) {
+		return "", "", false
+	}
+	if _, isId := e.(*ast.Ident); isId {
+		return "", "", false
+	}
+	if v, f, ok := ls.lvalueRootQuiet(c, e); ok {
+		if fi := ls.fields[f]; fi != nil && (fi.kind == fkPlain) && ls.mayRef(fi.typeExpr, 0) {
+			return v, f, true
+		}
+		return "", "", false
+	}
+	// rooted at an alias local
+	x := e
+	for {
+		switch t := x.(type) {
+		case *ast.ParenExpr:
+			x = t.X
+			continue
+		case *ast.IndexExpr:
+			x = t.X
+			continue
+		case *ast.SliceExpr:
+			x = t.X
+			continue
+		case *ast.StarExpr:
+			x = t.X
+			continue
+		case *ast.SelectorExpr:
+			x = t.X
+			continue
+		case *ast.Ident:
+			if pf, ok := c.ptrs[t.Name]; ok {
+				return pf[0], pf[1], true
+			}
+		}
+		return "", "", false
+	}
+}
+
+func (c *fnCtx) setAlias(name, v, f string, value bool) {
+	if c.ptrs == nil {
+		c.ptrs = map[string][2]string{}
+	}
+	if c.valAlias == nil {
+		c.valAlias = map[string]bool{}
+	}
+	c.ptrs[name] = [2]string{v, f}
+	c.valAlias[name] = value
+}
+
+// emitAllReads: *v (a struct copy) reads every field of v; copying the lock itself cannot be classified
+func (ls *lockScanner) emitAllReads(c *fnCtx, at ast.Node, v string) {
+	for _, f := range ls.order {
+		fi := ls.fields[f]
+		switch fi.kind {
+		case fkPlain, fkAtomic:
+			if fi.kind == fkAtomic {
+				if _, ptr := fi.typeExpr.(*ast.StarExpr); !ptr {
+					ls.emit(c, at, v, f, false, false) // an atomic value copied non-atomically
+					continue
+				}
+			}
+			ls.emit(c, at, v, f, false, false)
+		case fkLock:
+			if _, ptr := fi.typeExpr.(*ast.StarExpr); !ptr {
+				ls.emitLockEscape(c, at, f, "the lock is copied with the struct")
+			}
+		}
+	}
+}
+
+// emitLockEscape: the lock is used in a way the scan cannot follow (address taken, copied, method value):
+// what is held afterwards is unknown — reported as an unguarded write of a pseudo location.
+func (ls *lockScanner) emitLockEscape(c *fnCtx, at ast.Node, lock, why string) {
+	ls.add(accessRec{fn: c.fn, loc: "?lock:" + lock, write: true, atomic: false, held: "[]", prepub: false, pos: ls.pos(at),
+		note: "UNCLASSIFIED: " + why})
+}
+
 // addressOfField: e is &<something rooted at a plain or atomic field of a tracked variable>
 func (ls *lockScanner) addressOfField(c *fnCtx, e ast.Expr) (string, string, bool) {
 	u, ok := e.(*ast.UnaryExpr)
@@ -596,14 +747,21 @@ func (ls *lockScanner) freshObject(c *fnCtx, e ast.Expr) bool {
 				return true
 			}
 		}
-	case *ast.StarExpr: // c := *h  (a copy is a fresh object)
-		if id, ok := t.X.(*ast.Ident); ok {
-			if _, tr := c.vars[id.Name]; tr {
-				return true
-			}
-		}
 	}
 	return false
+}
+
+// structCopyOf: e is *v with v tracked
+func structCopyOf(c *fnCtx, e ast.Expr) (string, bool) {
+	if p, ok := e.(*ast.ParenExpr); ok {
+		e = p.X
+	}
+	if st, ok := e.(*ast.StarExpr); ok {
+		if id, ok := st.X.(*ast.Ident); ok && c.vars[id.Name] != nil {
+			return id.Name, true
+		}
+	}
+	return "", false
 }
 
 // returnsFresh: the function's result type is T / *T and every return statement (outside closures) returns
@@ -740,18 +898,31 @@ func (ls *lockScanner) scanStmt(c *fnCtx, s ast.Stmt) {
 						if c.ptrs == nil {
 							c.ptrs = map[string][2]string{}
 						}
-						c.ptrs[id.Name] = [2]string{v, f}
+						c.setAlias(id.Name, v, f, false)
 						ls.scanIndexParts(c, r.(*ast.UnaryExpr).X)
 						continue
 					}
 					if rid, ok := r.(*ast.Ident); ok {
 						if pf, isPtr := c.ptrs[rid.Name]; isPtr { // q := p
-							c.ptrs[id.Name] = pf
+							c.setAlias(id.Name, pf[0], pf[1], c.valAlias[rid.Name])
 							continue
 						}
 					}
+					if v, f, ok := ls.valueAliasOf(c, r); ok {
+						// m := v.f[i] with f a map / slice / pointer field: m shares memory with the field; what is
+						// done through m later is done to the field, with the locks held THEN
+						ls.scanExpr(c, r)
+						c.setAlias(id.Name, v, f, true)
+						continue
+					}
+					if v, ok := structCopyOf(c, r); ok {
+						// g := *v: every field of v is read here; g's reference-typed fields stay shared with v
+						ls.emitAllReads(c, r, v)
+						c.vars[id.Name] = &varInfo{copy: true}
+						continue
+					}
 				} else if rid, ok := r.(*ast.Ident); ok {
-					if pf, isPtr := c.ptrs[rid.Name]; isPtr { // x.y = p: the pointer leaves the function's view
+					if pf, isPtr := c.ptrs[rid.Name]; isPtr && !c.valAlias[rid.Name] { // x.y = p: the pointer leaves the function's view
 						ls.emitUnknown(c, r, pf[1], "pointer to the field stored elsewhere")
 						continue
 					}
@@ -767,6 +938,12 @@ func (ls *lockScanner) scanStmt(c *fnCtx, s ast.Stmt) {
 				}
 				rid, _ := rhs.(*ast.Ident)
 				if _, f, ok := ls.addressOfField(c, rhs); ok && f != "" {
+					continue // registered above
+				}
+				if _, _, ok := ls.valueAliasOf(c, rhs); ok && c.ptrs[id.Name][1] != "" {
+					continue // registered above
+				}
+				if _, ok := structCopyOf(c, rhs); ok && c.vars[id.Name] != nil && c.vars[id.Name].copy {
 					continue // registered above
 				}
 				if rid != nil {
@@ -813,12 +990,15 @@ func (ls *lockScanner) scanStmt(c *fnCtx, s ast.Stmt) {
 	case *ast.ReturnStmt:
 		for _, r := range t.Results {
 			if id, ok := r.(*ast.Ident); ok {
-				if pf, isPtr := c.ptrs[id.Name]; isPtr {
+				if pf, isPtr := c.ptrs[id.Name]; isPtr && !c.valAlias[id.Name] {
 					ls.emitUnknown(c, r, pf[1], "pointer to the field returned")
 					continue
 				}
 			}
 			ls.scanExpr(c, r)
+		}
+		if c.closures == 0 {
+			c.retHeld, c.hasRet = meet(c.retHeld, c.held), true
 		}
 		c.held = nil
 	case *ast.BlockStmt:
@@ -847,6 +1027,13 @@ func (ls *lockScanner) scanStmt(c *fnCtx, s ast.Stmt) {
 		})
 	case *ast.RangeStmt:
 		ls.scanExpr(c, t.X)
+		if t.Tok == token.DEFINE && t.Value != nil {
+			if id, ok := t.Value.(*ast.Ident); ok && id.Name != "_" {
+				if v, f, ok := ls.valueAliasOf(c, &ast.IndexExpr{X: t.X, Index: ast.NewIdent("_")}); ok {
+					c.setAlias(id.Name, v, f, true) // for _, m := range v.f: m shares memory with the field
+				}
+			}
+		}
 		ls.loop(c, func() {
 			if t.Tok == token.ASSIGN {
 				if t.Key != nil {
@@ -974,7 +1161,13 @@ func (ls *lockScanner) clauses(c *fnCtx, body *ast.BlockStmt, isSelect bool) {
 func (ls *lockScanner) scanDeferredOrGo(c *fnCtx, call *ast.CallExpr, isDefer bool) {
 	// defer v.mu.Unlock(): the lock stays held to the end of the function
 	if isDefer {
-		if _, _, op, ok := ls.lockOp(c, call); ok && (op == "Unlock" || op == "RUnlock") {
+		if _, f, op, ok := ls.lockOp(c, call); ok && (op == "Unlock" || op == "RUnlock") {
+			if c.closures == 0 {
+				if c.deferredUnlock == nil {
+					c.deferredUnlock = map[string]bool{}
+				}
+				c.deferredUnlock[f] = true
+			}
 			return
 		}
 	}
@@ -988,7 +1181,9 @@ func (ls *lockScanner) scanDeferredOrGo(c *fnCtx, call *ast.CallExpr, isDefer bo
 	}
 	switch f := call.Fun.(type) {
 	case *ast.FuncLit:
+		c.closures++
 		ls.scanBlock(c, f.Body)
+		c.closures--
 	default:
 		if m, ok := ls.ownMethodCall(c, call); ok && !isDefer {
 			// go v.m(): m is the entry point of a thread of its own; its accesses are listed under its own name
@@ -1012,6 +1207,11 @@ func (ls *lockScanner) lockOp(c *fnCtx, call *ast.CallExpr) (string, string, str
 	v, f, ok := ls.trackedField(c, se.X)
 	if !ok || ls.fields[f].kind != fkLock {
 		return "", "", "", false
+	}
+	if vi := c.vars[v]; vi != nil && vi.copy {
+		if _, ptr := ls.fields[f].typeExpr.(*ast.StarExpr); !ptr {
+			return "", "", "", false // the copy's own mutex protects nothing of the original
+		}
 	}
 	return v, f, se.Sel.Name, true
 }
@@ -1127,14 +1327,21 @@ func (ls *lockScanner) inlineMethod(c *fnCtx, call *ast.CallExpr) bool {
 	}
 	before := c.held
 	ls.scanBlock(sub, md.Body)
-	// locks held by the callee at its end that it took without defer stay; the callee may have released ours
-	end := sub.held
-	if end == nil { // every path returns: what the callee holds at its returns is not tracked; keep ours
-		end = before
+	// the callee's net effect on the locks: what it holds where it returns (at the end of its body and at its
+	// return statements), minus what its deferred Unlocks release — f.lock() takes a lock for the caller, a
+	// callee may also release the caller's
+	exit := sub.held
+	if sub.hasRet {
+		exit = meet(exit, sub.retHeld)
 	}
-	c.held = meet(before, end)
-	if c.held == nil {
+	if exit == nil { // the callee never returns
 		c.held = before
+	} else {
+		exit = exit.clone()
+		for l := range sub.deferredUnlock {
+			delete(exit, l)
+		}
+		c.held = exit
 	}
 	if sub.published {
 		c.published = true
@@ -1152,11 +1359,38 @@ func (ls *lockScanner) scanExpr(c *fnCtx, e ast.Expr) {
 			return ls.scanCall(c, t)
 		case *ast.SelectorExpr:
 			if v, f, ok := ls.trackedField(c, t); ok {
+				if fi := ls.fields[f]; fi.kind == fkLock {
+					// every legitimate use (v.mu.Lock() …, defer v.mu.Unlock()) was taken before getting here
+					ls.emitLockEscape(c, t, f, "the lock is aliased, copied or passed on (not a direct Lock/Unlock call)")
+					return false
+				}
+				if vi := c.vars[v]; vi != nil && vi.copy && !ls.mayRef(ls.fields[f].typeExpr, 0) {
+					return false // scalar field of a private copy
+				}
 				ls.emit(c, t, v, f, false, false)
 				return false
 			}
+			if id, ok := t.X.(*ast.Ident); ok && c.vars[id.Name] != nil {
+				if md := ls.methods[t.Sel.Name]; md != nil {
+					// method value v.m (not called here): runs at an unknown time, with no lock assumed held
+					saved := c.held
+					c.held = heldSet{}
+					c.noPrepub++
+					fake := &ast.CallExpr{Fun: t}
+					ls.inlineMethod(c, fake)
+					c.noPrepub--
+					c.held = saved
+					return false
+				}
+			}
 			ls.scanExpr(c, t.X) // not the selector's name
 			return false
+		case *ast.StarExpr:
+			if v, ok := structCopyOf(c, t); ok {
+				ls.emitAllReads(c, t, v)
+				return false
+			}
+			return true
 		case *ast.Ident:
 			if pf, ok := c.ptrs[t.Name]; ok {
 				ls.emit(c, t, pf[0], pf[1], false, false) // use of p / *p / p[i] / p.x: a read through the pointer
@@ -1188,7 +1422,9 @@ func (ls *lockScanner) scanExpr(c *fnCtx, e ast.Expr) {
 			saved := c.held
 			c.held = heldSet{}
 			c.noPrepub++
+			c.closures++
 			ls.scanBlock(c, t.Body)
+			c.closures--
 			c.noPrepub--
 			c.held = saved
 			return false
@@ -1256,6 +1492,13 @@ func (ls *lockScanner) scanOwnLiteral(c *fnCtx, cl *ast.CompositeLit) {
 	c.vars[lit] = &varInfo{fresh: true}
 	for i, el := range cl.Elts {
 		if kv, ok := el.(*ast.KeyValueExpr); ok {
+			if k, isId := kv.Key.(*ast.Ident); isId {
+				if _, f, isF := ls.trackedField(c, kv.Value); isF && f == k.Name && ls.fields[f].kind == fkLock {
+					if _, ptr := ls.fields[f].typeExpr.(*ast.StarExpr); ptr {
+						continue // outMu: h.outMu — the clone shares the (pointer to the) lock
+					}
+				}
+			}
 			ls.scanExpr(c, kv.Value)
 			if k, ok := kv.Key.(*ast.Ident); ok {
 				ls.emit(c, kv, lit, k.Name, true, false)
@@ -1362,7 +1605,19 @@ func (ls *lockScanner) scanCall(c *fnCtx, call *ast.CallExpr) bool {
 				}
 				return false
 			}
-		case "new", "make", "len", "cap", "append", "min", "max", "panic", "recover", "print", "println":
+		case "append":
+			// append may write into the shared backing array of its first argument
+			if len(call.Args) >= 1 {
+				if v, f, ok := ls.lvalueRootQuiet(c, call.Args[0]); ok {
+					ls.emit(c, call, v, f, true, false)
+				} else if id, ok := call.Args[0].(*ast.Ident); ok {
+					if pf, isA := c.ptrs[id.Name]; isA {
+						ls.emit(c, call, pf[0], pf[1], true, false)
+					}
+				}
+			}
+			return true
+		case "new", "make", "len", "cap", "min", "max", "panic", "recover", "print", "println":
 			return true
 		}
 	case *ast.FuncLit:
@@ -1371,7 +1626,9 @@ func (ls *lockScanner) scanCall(c *fnCtx, call *ast.CallExpr) bool {
 			ls.scanArg(c, a)
 		}
 		before := c.held.clone()
+		c.closures++
 		ls.scanBlock(c, fun.Body)
+		c.closures--
 		end := c.held
 		if end == nil {
 			end = before
@@ -1391,7 +1648,7 @@ func (ls *lockScanner) scanCall(c *fnCtx, call *ast.CallExpr) bool {
 // scanArg: an argument expression; handing the whole object to other code cannot be followed.
 func (ls *lockScanner) scanArg(c *fnCtx, a ast.Expr) {
 	if id, ok := a.(*ast.Ident); ok {
-		if pf, isPtr := c.ptrs[id.Name]; isPtr {
+		if pf, isPtr := c.ptrs[id.Name]; isPtr && !c.valAlias[id.Name] {
 			ls.emitUnknown(c, a, pf[1], "pointer to the field passed to other code")
 			return
 		}
